@@ -1844,6 +1844,10 @@ def check_C16(tier, seed, replay):
                     open(os.path.join(dd, "files", "orig.ebnf"), "w", newline="").write(text)
                     os.symlink(os.path.join(dd, "files", "orig.ebnf"), os.path.join(dd, "a", "link.ebnf"))
                     open(os.path.join(dd, "a", "other.ebnf"), "w").write("@export\nOther = 'o';\n")
+                    # ... and entries whose names start with a dot are entries like any other
+                    os.makedirs(os.path.join(dd, "a", ".hidden"))
+                    open(os.path.join(dd, "a", ".hidden", "g.ebnf"), "w", newline="").write(text)
+                    open(os.path.join(dd, "a", ".dotfile.ebnf"), "w", newline="").write(text)
                     pf2 = prefixes[(proc + 1) % len(prefixes)]
                     jobs.append(("builddir", g.id, sname, proc, [front, "compiledir", dd, dvs, pf2], pf2, text, cenv))
 
@@ -1876,12 +1880,14 @@ def check_C16(tier, seed, replay):
         else:
             outp = cmd[4] if route == "buildscript" else os.path.join(cmd[2], "a", "b", "g.rs")
             if route == "builddir":
-                missing = [x for x in (outp, os.path.join(cmd[2], "a", "link.rs")) if not os.path.exists(x)]
+                others = [os.path.join(cmd[2], "a", "link.rs"), os.path.join(cmd[2], "a", ".hidden", "g.rs"), os.path.join(cmd[2], "a", ".dotfile.rs")]
+                missing = [x for x in [outp] + others if not os.path.exists(x)]
                 if missing:
                     res.add(Violation("C16", "Routes", "Compile::directory answers Ok but wrote no code for %s (a grammar reached through a "
-                                      "symbolic link)" % os.path.relpath(missing[0], cmd[2]), None, {"name": gid, "site": "builddir:missing"}))
+                                      "symbolic link, or an entry whose name starts with a dot)" % os.path.relpath(missing[0], cmd[2]), None,
+                                      {"name": gid, "site": "builddir:missing"}))
                     continue
-                if open(outp).read() != open(os.path.join(cmd[2], "a", "link.rs")).read():
+                if any(open(outp).read() != open(x).read() for x in others):
                     res.add(Violation("C16", "Routes", "Compile::directory wrote different files for the same grammar text reached by two paths",
                                       None, {"name": gid, "site": "builddir:two-paths"}))
             content = open(outp).read()
